@@ -310,7 +310,15 @@ def _check(item: dict, out: dict) -> None:
                     continue
                 if getattr(v, "kind", None) == "str":
                     nonlit.append(v)
-    rmap = regions.dynamic_map(active, {"likes": model.likes, "nonliteral_patterns": nonlit})
+    round_args = []
+    if "sqlite-round-trunc-negative" in active:
+        for sub in G.subterms(term):
+            if sub[0] == "call" and sub[1] == "round":
+                try:
+                    round_args.append(V.to_real(ref.ev(sub[2][0])))
+                except Exception:
+                    continue
+    rmap = regions.dynamic_map(active, {"likes": model.likes, "nonliteral_patterns": nonlit, "round_args": round_args})
     dec = regions.solve_with_regions(make_solver, sql_keep != ref_keep, rmap)
     out["solver_s"] = dec["solver_s"]
     if dec["status"] == "unknown":
@@ -463,9 +471,45 @@ def _replay_illformed(item, term, sent, text, sql, err: SP.SqlIllFormed, out: di
 
 
 # ---------------------------------------------------------------------- known-finding witness replay
+def term_from_text(text: str):
+    """Generator-style term of a scalar filter TEXT (only for witnesses recorded as text: the live parser's AST is decoded
+    node by node; the checks themselves never take their reference from the parser)."""
+    from odata_query import ast
+
+    def go(n):
+        if isinstance(n, ast.Identifier):
+            return ("field", n.name)
+        if isinstance(n, ast.Integer):
+            return ("int", int(n.val))
+        if isinstance(n, ast.Float):
+            return ("float", n.val)
+        if isinstance(n, ast.String):
+            return ("str", n.val)
+        if isinstance(n, ast.Boolean):
+            return ("bool", n.val.lower() == "true")
+        if isinstance(n, ast.Null):
+            return ("null",)
+        if isinstance(n, ast.BinOp):
+            op = {ast.Add: "add", ast.Sub: "sub", ast.Mult: "mul", ast.Div: "div", ast.Mod: "mod"}[type(n.op)]
+            return ("arith", op, go(n.left), go(n.right))
+        if isinstance(n, ast.UnaryOp):
+            return ("neg" if isinstance(n.op, ast.USub) else "not", go(n.operand))
+        if isinstance(n, ast.BoolOp):
+            return ("and" if isinstance(n.op, ast.And) else "or", go(n.left), go(n.right))
+        if isinstance(n, ast.Compare):
+            if isinstance(n.comparator, ast.In):
+                return ("in", go(n.left), [go(i) for i in n.right.val])
+            op = {ast.Eq: "eq", ast.NotEq: "ne", ast.Lt: "lt", ast.LtE: "le", ast.Gt: "gt", ast.GtE: "ge"}[type(n.comparator)]
+            return ("cmp", op, go(n.left), go(n.right))
+        if isinstance(n, ast.Call):
+            return ("call", n.func.name, [go(a) for a in n.args])
+        raise ValueError(f"cannot decode {type(n).__name__}")
+    return go(real_parse(text))
+
+
 def replay_known_witness(w: dict) -> Tuple[bool, str]:
-    """Does the recorded witness {term, row} still fail on the live code?  -> (still_fails, description)"""
-    term = _retuple(w["term"])
+    """Does the recorded witness {term | filter, row} still fail on the live code?  -> (still_fails, description)"""
+    term = _retuple(w["term"]) if w.get("term") else term_from_text(w["filter"])
     row = dict(NEUTRAL_ROW, **w["row"])
     text = G.to_text(term)
     st, sql = real_sql(text, "sqlite")
@@ -488,7 +532,7 @@ def _retuple(x):
     """JSON lists back to term tuples (argument / item lists stay lists)."""
     if isinstance(x, list):
         if x and isinstance(x[0], str) and x[0] in ("field", "int", "str", "bool", "null", "arith", "neg", "cmp", "in",
-                                                    "and", "or", "not", "call", "float", "date", "dt", "dur", "guid"):
+                                                    "and", "or", "not", "call", "float", "date", "dt", "dur", "guid", "list"):
             k = x[0]
             if k == "in":
                 return ("in", _retuple(x[1]), [_retuple(i) for i in x[2]])
